@@ -478,3 +478,73 @@ Proof.
     apply mk_recs_sp; [exact H|]. intros r0 Hin. apply (Hmb _ r0 (or_introl eq_refl)). exact Hin.
   - apply IH. intros lv r0 Hin. apply Hmb. right. exact Hin.
 Qed.
+
+Theorem wrap_phase1_sp W infos infos' lines : Forall2 info_rel infos infos' -> differing_are_must_break infos infos' lines ->
+  wrap_phase1 W infos lines = wrap_phase1 W infos' lines.
+Proof.
+  intros H Hmb. unfold wrap_phase1, wrap_phase. apply wrap_phase_views_sp; [exact (mk_lviews_sp infos infos' lines H Hmb)|].
+  intros lv lv' (recs' & -> & _). reflexivity.
+Qed.
+
+(* ------------------------------------------------------------------ *)
+(* the whole wrapper (format_multiline_strings = false) on two vectors that differ only in spaces_before *)
+Definition fmt_rel (f f' : fmt) : Prop := f_ignored f = f_ignored f' /\ f_nl f = f_nl f' /\ f_ind f = f_ind f' /\ f_cont f = f_cont f'.
+Definition tok_rel (p q : ftoken) : Prop := fst p = fst q /\ fmt_rel (snd p) (snd q).
+(* after the wrapper: the same token, the same counters, and the same spaces wherever the token starts a line *)
+Definition out_rel (p q : ftoken) : Prop := fst p = fst q /\ fmt_rel (snd p) (snd q) /\ (f_nl (snd p) <> 0 -> snd p = snd q).
+
+Lemma upd_ftok_rel g : (forall f f', fmt_rel f f' -> fmt_rel (g f) (g f')) ->
+  forall l l', Forall2 tok_rel l l' -> forall i, Forall2 tok_rel (upd_ftok i g l) (upd_ftok i g l').
+Proof.
+  intros Hg. induction 1 as [|[t f] [t' f'] l l' (Ht & Hf) Hl IH]; intros i; [destruct i; constructor|].
+  destruct i as [|i]; cbn [upd_ftok]; constructor; try assumption; [split; [exact Ht|exact (Hg f f' Hf)]|split; [exact Ht|exact Hf]|apply IH].
+Qed.
+
+Lemma apply_plan_rel p : forall l l', Forall2 tok_rel l l' -> Forall2 tok_rel (apply_plan p l) (apply_plan p l').
+Proof.
+  unfold apply_plan. induction p as [|pd r IH]; intros l l' H; [exact H|]. cbn [fold_left]. apply IH. apply upd_ftok_rel; [|exact H].
+  intros f f' (A & B & C & D). destruct (snd pd) as [first ind cont|]; unfold fmt_rel, apply_decision; cbn [f_ignored f_nl f_ind f_cont]; rewrite ?A, ?B; repeat split; reflexivity.
+Qed.
+
+Lemma zero_line_starts_rel : forall l l', Forall2 tok_rel l l' -> Forall2 out_rel (zero_line_starts l) (zero_line_starts l').
+Proof.
+  unfold zero_line_starts. induction 1 as [|[t f] [t' f'] l l' (Ht & (A & B & C & D)) Hl IH]; cbn [map]; constructor; [|exact IH].
+  cbn [fst snd] in *. subst t'. rewrite <- B. destruct (0 <? f_nl f) eqn:E.
+  - unfold out_rel, fmt_rel. cbn [fst snd f_ignored f_nl f_ind f_cont]. rewrite A, B, C, D. repeat split; reflexivity.
+  - apply N.ltb_ge in E. unfold out_rel, fmt_rel. cbn [fst snd]. repeat split; try assumption. intros Hn. lia.
+Qed.
+
+Lemma tokinfo_of_rel : forall l l', Forall2 tok_rel l l' -> Forall2 info_rel (map tokinfo_of l) (map tokinfo_of l').
+Proof.
+  induction 1 as [|[t f] [t' f'] l l' (Ht & _) Hl IH]; cbn [map]; constructor; [|exact IH]. cbn [fst] in Ht. subst t'. repeat split.
+Qed.
+
+(* olf_model .. false: the events and the out-of-fuel flag are equal; the final vectors agree in the tokens and all counters, and in the
+   spaces at every token that starts a line.  (An equality of the vectors is false: a token no solved line decides - a line without a
+   solution, an asm line - keeps the spaces it came with.) *)
+Theorem olf_model_sp rs W lines l l' :
+  Forall2 tok_rel l l' ->
+  differing_are_must_break (map tokinfo_of l) (map tokinfo_of l') lines ->
+  snd (fst (olf_model rs W false lines l)) = snd (fst (olf_model rs W false lines l'))
+  /\ snd (olf_model rs W false lines l) = snd (olf_model rs W false lines l')
+  /\ Forall2 out_rel (fst (fst (olf_model rs W false lines l))) (fst (fst (olf_model rs W false lines l'))).
+Proof.
+  intros Hl Hmb. unfold olf_model. cbn [fst snd].
+  rewrite <- (wrap_phase1_sp W (map tokinfo_of l) (map tokinfo_of l') lines (tokinfo_of_rel l l' Hl) Hmb).
+  split; [reflexivity|]. split; [reflexivity|]. apply zero_line_starts_rel. apply apply_plan_rel. exact Hl.
+Qed.
+
+(* with f_nl > 0 the whole format data is equal: the statement FormatIdemProofs needs at a token that starts a line *)
+Corollary olf_model_sp_line_start rs W lines l l' t tok f tok' f' :
+  Forall2 tok_rel l l' -> differing_are_must_break (map tokinfo_of l) (map tokinfo_of l') lines ->
+  nth_error (fst (fst (olf_model rs W false lines l))) t = Some (tok, f) ->
+  nth_error (fst (fst (olf_model rs W false lines l'))) t = Some (tok', f') ->
+  tok = tok' /\ fmt_rel f f' /\ (f_nl f <> 0 -> f = f').
+Proof.
+  intros Hl Hmb E1 E2. destruct (olf_model_sp rs W lines l l' Hl Hmb) as (_ & _ & H). revert t E1 E2.
+  induction H as [|p q r r' Hpq Hr IH]; intros t E1 E2; [destruct t; discriminate|].
+  destruct t as [|t]; cbn [nth_error] in *; [|exact (IH t E1 E2)]. injection E1 as ->. injection E2 as ->. exact Hpq.
+Qed.
+
+Print Assumptions olf_model_sp.
+Print Assumptions olf_model_sp_line_start.
